@@ -150,6 +150,15 @@ func RefineInvoke(input RefineInput) RefineOutput {
 	var refineOutput []byte
 	if output, isByteSlice := result.ReasonOrBytes.([]byte); isByteSlice {
 		refineOutput = output
+	} else if result.ReasonOrBytes != nil {
+		// anything but a blob (nil = the empty blob) is a panic: Psi_M reports an undecodable program blob
+		// (Y(p) undefined) with ExitPanic, which is not the PANIC value tested above
+		return RefineOutput{
+			WorkResult:    types.WorkExecResultPanic,
+			RefineOutput:  []byte{},
+			ExportSegment: []types.ExportSegment{},
+			Gas:           types.Gas(result.Gas),
+		}
 	}
 
 	return RefineOutput{
